@@ -117,6 +117,127 @@ let pr_cval_row (v : row cval) =
   pr_z v.md; pr_z v.tomb; pr_z v.prev;
   pr_opt (fun r -> pr_absrow v.md r) v.payload
 
+(* ---------- kv histories (L1) ---------- *)
+let rec nat_of_int n = if n <= 0 then O else S (nat_of_int (n - 1))
+let big_fuel = nat_of_int 200000
+
+(* canonical naming by first appearance at print time, separately for versions and nodes *)
+type namer = { mutable fwd : (z * int) list; mutable cnt : int }
+let vn = { fwd = []; cnt = 0 }   (* version names  #k *)
+let nn = { fwd = []; cnt = 0 }   (* node names     %k *)
+let nm_reset () = vn.fwd <- []; vn.cnt <- 0; nn.fwd <- []; nn.cnt <- 0
+let canon (t : namer) (x : z) : int =
+  if x = Z0 then 0 else
+  match Stdlib.List.assoc_opt x t.fwd with
+  | Some i -> i
+  | None -> t.cnt <- t.cnt + 1; t.fwd <- (x, t.cnt) :: t.fwd; t.cnt
+let uncanon (t : namer) (i : int) : z =
+  if i = 0 then Z0 else
+  match Stdlib.List.find_opt (fun (_, j) -> j = i) t.fwd with
+  | Some (x, _) -> x
+  | None -> z_of_small (-1000 - i)   (* unknown to the model: a name that cannot exist *)
+let pr_vname x = pr ("#" ^ string_of_int (canon vn x))
+let pr_nname x = pr ("%" ^ string_of_int (canon nn x))
+let rd_vname () : z =
+  let t = next () in
+  if String.length t < 2 || t.[0] <> '#' then failwith ("bad name " ^ t);
+  uncanon vn (int_of_string (String.sub t 1 (String.length t - 1)))
+let rd_vnames () : z list = rd_list rd_vname
+
+let pr_trace (tr : ('v req * bool) list) (opn : string) (cls : string) =
+  pr "M"; pr opn;
+  Stdlib.List.iter (fun (r, ok) ->
+    if ok then match r with
+      | RPut (PCur, n, _) -> pr ("Pc#" ^ string_of_int (canon vn n))
+      | RPut (PMerged, n, _) -> pr ("Pm#" ^ string_of_int (canon vn n))
+      | RPut (PNode, n, _) -> pr ("Pn%" ^ string_of_int (canon nn n))
+      | RDel (PCur, n) -> pr ("Dc#" ^ string_of_int (canon vn n))
+      | RDel (PMerged, n) -> pr ("Dm#" ^ string_of_int (canon vn n))
+      | RDel (PNode, n) -> pr ("Dn%" ^ string_of_int (canon nn n))
+      | _ -> ()) (Stdlib.List.rev tr);
+  pr cls
+
+type 'v runner = { runp : 'a. nat -> (z -> outcome) -> z option -> 'v bucket -> ('v, 'a) prog -> ('v bucket * 'a result) * ('v req * bool) list }
+let kvhist (type v) (cfg : v cfg) (rn : v runner)
+    (rd_payload : unit -> v) (pr_payload : z -> v option -> unit) : unit =
+  nm_reset ();
+  let b = ref (empty_bucket : v bucket) in
+  let hs : (int * v handle) list ref = ref [] in
+  let conflicts = ref Z0 in
+  let geth i = try Stdlib.List.assoc i !hs with Not_found -> failwith ("no_handle_" ^ string_of_int i) in
+  let seth i h = hs := (i, h) :: Stdlib.List.remove_assoc i !hs in
+  let exec : 'a. (v, 'a) prog -> 'a result * (v req * bool) list = fun p ->
+    let ((b', r), tr) = rn.runp big_fuel no_faults None !b p in
+    b := b'; (r, tr) in
+  let pr_cv (c : v cval) = pr_z c.md; pr_z c.tomb; pr_vname c.prev; pr_payload c.md c.payload in
+  let nops = rd_int () in
+  for _ = 1 to nops do
+    pr ";";
+    match next () with
+    | "open" ->
+        let h = rd_int () in let ro = rd_bool () in let w = rd_z () in let _seed = rd_z () in
+        let only = (let n = rd_int () in
+                    if n < 0 then None
+                    else Some (Stdlib.List.init n (fun _ -> rd_vname ()))) in
+        let order = rd_vnames () in let corder = rd_vnames () in
+        let (r, tr) = exec (open0 cfg ro only w order corder) in
+        (match r with
+         | Done hd -> pr "ok"; seth h hd; conflicts := Z.add !conflicts hd.h_conf
+         | Failed e when e = z_of_small 99 -> pr "panic"
+         | _ -> pr "err");
+        pr_trace tr "[" "]"
+    | "set" ->
+        let h = rd_int () in let w = rd_z () in let k = rd_sval () in let v = rd_payload () in
+        (match kv_set cfg (geth h) w k v with Some h' -> seth h h'; pr "ok" | None -> pr "err")
+    | "tomb" ->
+        let h = rd_int () in let w = rd_z () in let k = rd_sval () in
+        (match kv_tombstone cfg (geth h) w k with Some h' -> seth h h'; pr "ok" | None -> pr "err")
+    | "commit" ->
+        let h = rd_int () in let corder = rd_vnames () in
+        let (r, tr) = exec (commit corder (geth h)) in
+        (match r with
+         | Done (h', nmo) -> seth h h'; pr "ok"; pr_vname (match nmo with Some n -> n | None -> Z0)
+         | _ -> pr "err");
+        pr_trace tr "[" "]"
+    | "clone" ->
+        let h = rd_int () in let h2 = rd_int () in seth h2 (geth h); pr "ok"
+    | "rmtomb" ->
+        let h = rd_int () in let before = rd_z () in
+        seth h (kv_remove_tombstones (geth h) before); pr "ok"
+    | "get" ->
+        let h = rd_int () in let k = rd_sval () in
+        (match kv_get (geth h) k with None -> pr "_" | Some c -> pr "S"; pr_cv c);
+        pr_bool (kv_is_tombstoned (geth h) k)
+    | "dump" ->
+        let h = rd_int () in let hd = geth h in
+        pr_list (fun (k, c) -> pr_sval k; pr_cv c) (kv_dump hd);
+        (match kv_roots hd with
+         | None -> pr "err"
+         | Some l -> pr "{"; pr_list pr_vname l; pr "}");
+        pr_bool (kv_is_dirty hd); pr_z (Z.of_nat (nat_of_int (Stdlib.List.length hd.h_tree)))
+    | "delhist" ->
+        let h = rd_int () in let before = rd_z () in
+        let (r, tr) = exec (delete_historic cfg (geth h) before) in
+        (match r with Done _ -> pr "ok" | _ -> pr "err");
+        pr_trace tr "{" "}"
+    | "diff" ->
+        let h = rd_int () in let h2 = rd_int () in
+        let d = kv_diff cfg (geth h).h_tree (geth h2).h_tree in
+        pr_list (fun ((k, a), bb) -> pr_sval k; pr_payload Z0 a; pr_payload Z0 bb) d
+    | "trace" ->
+        let h = rd_int () in let k = rd_sval () in let after = rd_z () in
+        let (r, _) = exec (trace_history cfg big_fuel k after [ (geth h, None) ]) in
+        (match r with
+         | Done l -> pr_list (fun (t, v) -> pr_z t; pr_payload t v) l
+         | _ -> pr "err")
+    | "list" ->
+        pr "{"; pr_list pr_vname (o_names !b.b_cur); pr "}";
+        pr "{"; pr_list pr_vname (o_names !b.b_merged); pr "}";
+        pr "{n"; pr_list pr_nname (o_names !b.b_node); pr "}"
+    | s -> failwith ("unknown_kv_op_" ^ s)
+  done;
+  if cfg.c_mode = z_of_small 2 then (pr ";"; pr_z !conflicts)
+
 (* ---------- commands ---------- *)
 let run_case (fn : string) : unit =
   match fn with
@@ -137,6 +258,16 @@ let run_case (fn : string) : unit =
       let a = rd_cval rd_z in let b = rd_cval rd_z in
       let r = last_write_wins a b in
       pr_z r.md; pr_z r.tomb; pr_z r.prev; pr_opt pr_z r.payload
+  | "kvhist" ->
+      let mode = next () in let bf = rd_z () in
+      (match mode with
+       | "rows" ->
+           kvhist (cfg_rows bf) { runp = run_rows } rd_row
+             (fun t v -> match v with None -> pr "_" | Some r -> pr "S"; pr_absrow t r)
+       | "plain" | "cb" ->
+           kvhist (cfg_plain (z_of_small (if mode = "cb" then 2 else 0)) bf) { runp = run_plain } rd_z
+             (fun _ v -> pr_opt pr_z v)
+       | _ -> failwith "bad_mode")
   | _ -> failwith ("unknown_fn_" ^ fn)
 
 let () =
